@@ -207,13 +207,9 @@ impl GraphEngine {
                 let should_pop = if parent_u.is_none() {
                     if children > 1 {
                         state.articulation_points.insert(u);
-                        // Root with 2+ children: pop component for each
-                        // child after the first (last child's edges stay
-                        // on the stack and are collected at cleanup).
-                        true
-                    } else {
-                        false
                     }
+                    // every child subtree of a DFS root closes a component
+                    true
                 } else if low_v >= disc_u {
                     state.articulation_points.insert(u);
                     true
@@ -235,17 +231,21 @@ impl GraphEngine {
                     }
                 }
 
-                // Check for bridge
-                if low_v > disc_u {
+                // Check for bridge (a doubled edge is never a bridge)
+                if low_v > disc_u && self.count_edges_between(u, v, config)? == 1 {
                     state.bridges.push((u.min(v), u.max(v)));
                 }
             } else if state.parent.get(&u).copied().flatten() != Some(v) {
                 // Back edge
                 let disc_v = state.discovery.get(&v).copied().unwrap_or(0);
+                let disc_u = state.discovery.get(&u).copied().unwrap_or(0);
                 let low_u = state.low.get(&u).copied().unwrap_or(0);
+                if disc_v < disc_u {
+                    // back edge to an ancestor: always part of the current component
+                    state.edge_stack.push((u.min(v), u.max(v)));
+                }
                 if disc_v < low_u {
                     state.low.insert(u, disc_v);
-                    state.edge_stack.push((u.min(v), u.max(v)));
                 }
             }
         }
@@ -262,6 +262,16 @@ impl GraphEngine {
         let neighbors =
             self.neighbors(node_id, config.edge_type.as_deref(), Direction::Both, None)?;
         Ok(neighbors.into_iter().map(|n| n.id).collect())
+    }
+
+    /// Number of edges (any direction) joining `a` and `b`.
+    fn count_edges_between(&self, a: u64, b: u64, config: &BiconnectedConfig) -> Result<usize> {
+        Ok(self
+            .edges_of(a, Direction::Both)?
+            .into_iter()
+            .filter(|e| (e.from == b || e.to == b) && e.from != e.to)
+            .filter(|e| config.edge_type.as_ref().map_or(true, |t| &e.edge_type == t))
+            .count())
     }
 
     /// Check if the graph is biconnected.
